@@ -45,6 +45,10 @@ TEndRaise == /\ IsEvent("end") /\ Ev.out[1] = "raise"
              /\ \/ pc = "failed" /\ UNCHANGED <<disk, buf, pc, job>>
                 \/ /\ pc = "reading" /\ Len(buf) < Len(job.rows) /\ job.col > Len(job.rows[Len(buf) + 1])
                    /\ StepRow
+                \* a raise the machine cannot explain (no cell failed, no short row is next): the event is consumed and
+                \* reported -- the operation did not transform the column although every cell converts
+                \/ /\ pc = "reading" /\ ~(Len(buf) < Len(job.rows) /\ job.col > Len(job.rows[Len(buf) + 1]))
+                   /\ UNCHANGED <<disk, buf, pc, job>>
 TNext == TBegin \/ TRow \/ TEndOk \/ TEndRaise
 TSpec == TInit /\ [][TNext]_allvars
 
@@ -62,6 +66,8 @@ ObsBad ==
          [] Prev.e = "end" /\ Prev.out[1] = "ok" ->
               (IF JTable(Prev.table1) # disk THEN {"bulk.final_table"} ELSE {}) \cup
               (IF ~P_C16_done THEN {"mon.C16.done"} ELSE {})
+         [] Prev.e = "end" /\ Prev.out[1] = "raise" /\ pc = "reading" ->
+              {"mon.C16.raised_although_every_cell_converts"} \cup (IF ~Prev.bytes_same THEN {"bulk.after_raise_unchanged"} ELSE {})
          [] Prev.e = "end" /\ Prev.out[1] = "raise" ->
               (IF ~Prev.bytes_same THEN {"bulk.after_raise_unchanged"} ELSE {}) \cup
               (IF ~P_C16_atomic \/ ~P_C16_failpos THEN {"mon.C16.atomic"} ELSE {})
